@@ -456,3 +456,62 @@ def order_universe(size=200):
 
 
 SUB_UNIVERSE = [None, True, 1, 1.5, "a", [], [1], {"a": 1}]
+
+
+# ---------------------------------------------------------------------------
+# C05: programs that build results sharing structure with their input (update / delete / add / sort / slice heavy)
+
+def c05_program(r):
+    g = Gen(r)
+    p = lambda: g.pathexpr(r.choice([0, 1, 1, 2]))
+    k = r.randrange(26)
+    v = r.choice(["$v0", "$v1", ".", ".x", ".a", ".p", ".q", ".r", ".c"])
+    if k == 0:
+        return "%s + %s" % (v, r.choice(['["x"]', "[1,2]", v, '{"z":1}', "null"]))
+    if k == 1:
+        return "[.[]?] as $xs | ($xs + [\"a\"]), ($xs + [\"b\"])"
+    if k == 2:
+        return "%s |= %s" % (p(), r.choice([". + 1", "[.]", "{x: .}", "empty", "7", "map(. + 1)?", ".[0]?", "tostring"]))
+    if k == 3:
+        return "del(%s)" % p()
+    if k == 4:
+        return "%s = %s" % (p(), r.choice(["1", "$v0", "[$v1]", ".", "(1,2)"]))
+    if k == 5:
+        return "%s %s %s" % (p(), r.choice(["+=", "-=", "*=", "//="]), r.choice(["1", "[1]", "$v0", '"s"']))
+    if k == 6:
+        return "to_entries, with_entries(.value |= [.]), [paths], [tostream] | ., length"
+    if k == 7:
+        return "[.[]?] | sort, sort_by(.), unique, group_by(type), reverse, (. - [1]), flatten, add?"
+    if k == 8:
+        return "%s[%s]" % (v, r.choice(["1:", ":2", "1:3", "0:1", "2:4"])) + r.choice(["", " + [\"x\"]", " |= . + [9]", " | . + . ", " | sort", " | map(. )"])
+    if k == 9:
+        return "reduce (.[]?, 1, 2) as $e (%s; . + [$e])" % r.choice(["[]", v, ".p?", "$v0"])
+    if k == 10:
+        return "[.[]? | %s]" % r.choice([". + [1]?", ".[1:]?", "{a: .}", "[., .]", ". as $e | $e"])
+    if k == 11:
+        return "limit(3; repeat(%s))" % r.choice([". + [1]?", "[.]", "{a: .}", ".[1:]?"])
+    if k == 12:
+        return "getpath(%s), setpath(%s; %s), delpaths([%s])" % (r.choice(['["a"]', '["p",0]', '["r",1]', "[0]"]), r.choice(['["a","b"]', '["p",1]', "[0]", '["r",1,"k"]']), v, r.choice(['["a"]', '["p",0]', "[0]", '["q",1]']))
+    if k == 13:
+        return "[.[]?] | transpose?, (map([.]) | add), (to_entries | map(.value)), (. as $a | $a | .[0] = 9 | ., $a)"
+    if k == 14:
+        return ". as $o | (%s |= 5) | ., $o" % p()
+    if k == 15:
+        return "[limit(4; .[]?, .., $v0)] | ., (.[0] = 1), (.[1:] + [2])"
+    if k == 16:
+        return "(%s) as $s | ($s | .[0]? = 1), $s, ($s + $s)?" % v
+    if k == 17:
+        return ".p? + [\"x\"], .q? + [\"y\"], (.p? | . + . ), .r?"
+    if k == 18:
+        return "[.p?, .q?] | add, (.[0] + [\"x\"]), .[1]"
+    if k == 19:
+        return "(.p? // [])[:2] + [\"x\"], (.r? // [])[:1] + [\"y\", \"z\"], .r?"
+    if k == 20:
+        return "first(%s | . + [1]?), last(%s | [.] )" % (v, v)
+    if k == 21:
+        return "%s * %s" % (r.choice([".", "{a: {b: 1}}", "$v0"]), r.choice(["{a: {c: 2}}", ".", "$v1"]))
+    if k == 22:
+        return "map_values(. + 1)?, map(.)?, (keys? as $k | $k), add?, any?, all?"
+    if k == 23:
+        return "tojson, tostring, @json, (tojson | fromjson), ([.] | join(\",\"))?"
+    return g.expr(3)
